@@ -174,7 +174,9 @@ def compare_reorder(c, a, b, pre="", tol="solver", skip=()):
     for w, (ra, rb) in enumerate(zip(a["rows"], b["rows"])):
       la = _row_list(ra, w, labels_a)
       lb = _row_list(rb, w, labels_b)
-      _match_groups(c, pre, f"efc[{w}]", la, lb, lambda x: (int(x["type"]), x["id"]), lambda x: np.concatenate([np.asarray(x["J"], np.float64), [x["pos"]]]), ROW_VALS, tol)
+      # row forces are not compared across schedules: with redundant contacts (a box on 4 corners) the split of the
+      # force between rows is ill-conditioned and moves with summation order; J^T force (qfrc_constraint) is compared
+      _match_groups(c, pre, f"efc[{w}]", la, lb, lambda x: (int(x["type"]), x["id"]), lambda x: np.concatenate([np.asarray(x["J"], np.float64), [x["pos"]]]), tuple(f for f in ROW_VALS if f != "force"), tol)
       # structural: rows grouped equality | friction | limit | contact in that order
       ty = rb["type"]
       if len(ty) and np.any(np.diff(_type_rank(ty)) < 0):
